@@ -1,6 +1,9 @@
 """C17 - peak fitting returns one coherent result per peak; removal touches only windows."""
 from __future__ import annotations
 
+import os
+import sys
+
 import itertools
 from fractions import Fraction
 
@@ -118,6 +121,27 @@ def _install_stubs(sc, model, fp, tagbox):
     fp._scipy_chi2 = Chi2
 
 
+def _fit_one_public(C, sc, fp, da, xs, background, peak):
+    """The per-peak fit through the PUBLIC entry point: one estimate, an explicit window that contains every data point
+    (symbolic edges: lo <= first coordinate, hi > last coordinate), so that the window slice is the whole data set."""
+    wlo, whi, c0 = C.sym_var('wlo'), C.sym_var('whi'), C.sym_var('estimate')
+    C.CTX.assume(wlo < whi)
+    if xs:
+        C.CTX.assume(wlo <= xs[0])
+        C.CTX.assume(whi > xs[-1])
+    C.CTX.assume(wlo <= c0)
+    C.CTX.assume(c0 <= whi)
+    est = sc.array(dims=['x'], values=[c0], unit='dimensionless')
+    win = sc.array(dims=['x', 'range'], values=[[wlo, whi]], unit='dimensionless')
+
+    def run():
+        out = fp.fit_peaks(da, peak_estimates=est, windows=win, background=background, peak=peak)
+        if len(out) != 1:
+            raise AssertionError(f'{len(out)} results for one estimate')
+        return out[0]
+    return run
+
+
 def job_length(j, seed):
     """(i) for every window point count m the per-peak call returns a FitResult (window_too_narrow iff m < #parameters)."""
     m, peak_name, bkg_name = j
@@ -145,11 +169,10 @@ def job_length(j, seed):
     (peak,) = fp._parse_model_spec(peak_name, prefix='peak_')
     (bkg,) = fp._parse_model_spec(bkg_name, prefix='bkg_')
     npar = len(peak.param_names | bkg.param_names)
-    window = sc.array(dims=['range'], values=[C.sym_var('wlo'), C.sym_var('whi')], unit='dimensionless')
     C.CTX.fork_timeout_ms = 2000
     try:
-        # through the per-peak driver (one peak model, one background model), so that a change of the private per-model signature is followed
-        paths = C.explore(lambda: fp._fit_peak(da, window, [bkg], [peak], fp.FitParameters(), fp.FitRequirements()), max_paths=64)
+        # through the public entry point, so that changes of the private per-peak / per-model helpers are followed
+        paths = C.explore(_fit_one_public(C, sc, fp, da, xs, bkg_name, peak_name), max_paths=64)
     finally:
         fp._assess_fit, fp._perform_fit = real_assess, real_perform
     for k, p in enumerate(paths):
@@ -204,12 +227,12 @@ def job_bkgstats(j, seed):
     da, xs, ys, vs = _data(sc, 9)
     peaks = fp._parse_model_spec(tuple(peak_names), prefix='peak_')
     bkgs = fp._parse_model_spec(tuple(bkg_names), prefix='bkg_')
-    window = sc.array(dims=['range'], values=[C.sym_var('wlo'), C.sym_var('whi')], unit='dimensionless')
+    one = _fit_one_public(C, sc, fp, da, xs, tuple(bkg_names), tuple(peak_names))
     try:
         def run():
             produced.clear()
             assessed.clear()
-            r = fp._fit_peak(da, window, bkgs, peaks, fp.FitParameters(), fp.FitRequirements())
+            r = one()
             return r, list(produced), list(assessed)
         paths = C.explore(run, max_paths=16)
     finally:
@@ -228,7 +251,7 @@ def job_bkgstats(j, seed):
             full_key = frozenset(pk.param_names | bg.param_names)
             own_full = [s_ for k_, s_ in prod if k_ == full_key]
             own_bkg = [s_ for k_, s_ in prod if k_ == frozenset(bg.param_names)]
-            if apk is not pk:
+            if type(apk) is not type(pk) or apk.param_names != pk.param_names:
                 bad.append(f'candidate ({type(pk).__name__}, degree {len(bg.param_names) - 1}) assessed with another peak model')
             if not any(st is s_ for s_ in own_full):
                 bad.append(f'candidate with background of {len(bg.param_names)} parameters assessed with statistics of another fit')
@@ -267,8 +290,14 @@ def job_stats(j, seed):
     C.CTX.fork_timeout_ms = 2000
     paths = C.explore(lambda: fp._goodness_of_fit_statistics(da, best, params))
     for kk, p in enumerate(paths):
+        if isinstance(p.exc, TypeError | AttributeError) and '_goodness_of_fit_statistics' in repr(p.exc):
+            # the private helper no longer has the signature this job calls it with (refactoring): job_stats_public covers the clause
+            obs.append({'name': f'stats[n={n},k={k}]:private helper callable as (data, best_fit, params)', 'status': 'inconclusive', 'detail': repr(p.exc)[:160], 't': 0})
+            continue
         if p.exc is not None or p.inconclusive:
             obs.append({'name': f'stats[n={n},k={k}]:path{kk}', 'status': 'inconclusive' if p.inconclusive else 'violated', 'detail': str(p.inconclusive or repr(p.exc))[:200], 't': 0})
+            if p.exc is not None:
+                cands.append(('C17:stats:raises', case, repr(p.exc)[:100]))
             continue
         st = p.value
         with C.oracle():
@@ -286,6 +315,99 @@ def job_stats(j, seed):
             obs.append(ob_dict(ob))
             if ob.status == 'violated':
                 cands.append(('C17:stats', case, nm))
+    return {'obligations': obs, 'candidates': cands, 'paths': len(paths)}
+
+
+def job_stats_public(j, seed):
+    """(iii) through the public entry point: with the optimiser returning arbitrary parameters, the reduced chi-square,
+    p-value and AIC REPORTED in the FitResult are those recomputed from the returned parameters (FitResult.eval_model)
+    and the data in the window."""
+    n, peak_name, bkg_name = j
+    from symex import core as C
+    from .symutil import fresh_run
+
+    sc, model, fp, rp = _load()
+    fresh_run()
+    obs, cands = [], []
+    tag = f'stats-public[n={n},{peak_name}+{bkg_name}]'
+    case = {'kind': 'stats', 'n': n, 'k': 0}
+    box = {}
+    _install_stubs(sc, model, fp, box)
+    real_assess = getattr(fp, '_assess_fit', None)
+    if real_assess is not None:
+        fp._assess_fit = lambda *a, **k: fp.FitAssessment.success  # the assessment is job_assess's subject
+    da, xs, ys, vs = _data(sc, n)
+    C.CTX.fork_timeout_ms = 2000
+    one = _fit_one_public(C, sc, fp, da, xs, bkg_name, peak_name)
+    # evaluating a model is C16's subject: here a model value is an uninterpreted function of (model, parameter values, x),
+    # the same arguments giving the same values (so that the oracle's re-evaluation meets the implementation's)
+    memo = {}
+    real_call = model.Model.__call__
+
+    def call(self, x, **params):
+        import numpy as np
+        from symsc.variable import Variable
+
+        key = (type(self).__name__, tuple(sorted((k_, repr(getattr(v_, 'value', v_))) for k_, v_ in params.items())), tuple(repr(t_) for t_ in x.values))
+        if key not in memo:
+            a = np.empty((len(x.values),), dtype=object)
+            for i_ in range(len(a)):
+                a[i_] = C.sym_var(f'model{len(memo)}_{i_}')
+            memo[key] = a
+        return Variable(_arr=memo[key].copy(), dims=x.dims, unit=sc.Unit('dimensionless'), dtype=sc.DType.float64)
+
+    model.Model.__call__ = call
+    comp_call = model.CompositeModel.__dict__.get('__call__')
+    if comp_call is not None:
+        model.CompositeModel.__call__ = call
+
+    def run():
+        r_ = one()
+        best_ = r_.eval_model(da.coords['x']) if r_.popt else None  # public; evaluated on the same path
+        return r_, best_
+
+    try:
+        paths = C.explore(run, max_paths=64)
+    finally:
+        model.Model.__call__ = real_call
+        if comp_call is not None:
+            model.CompositeModel.__call__ = comp_call
+        if real_assess is not None:
+            fp._assess_fit = real_assess
+    nok = 0
+    for kk, p in enumerate(paths):
+        if p.inconclusive:
+            obs.append({'name': f'{tag}:path{kk}', 'status': 'inconclusive', 'detail': p.inconclusive[:200], 't': 0})
+            continue
+        if p.exc is not None:
+            obs.append({'name': f'{tag}:path{kk}:returns', 'status': 'violated', 'detail': repr(p.exc)[:200], 't': 0})
+            cands.append(('C17:stats:raises', case, repr(p.exc)[:100]))
+            continue
+        r, best = p.value
+        if best is None or getattr(r.red_chisq.value, 'special', None) == 'nan':
+            continue  # failed fit (the optimiser stub may raise): the result carries NaN statistics, nothing to compare
+        nok += 1
+        k = len(r.popt)
+        f = list(best.values)
+        with C.oracle():
+            chi2 = sum(((ys[i] - f[i]) ** 2 / vs[i] for i in range(n)), C.R.lift(0))
+        goals = {}
+        if n - k != 0:
+            goals[f'reported reduced chi-square = chi2 / ({n} - {k})'] = r.red_chisq.value == chi2 / (n - k)
+        goals['reported p-value = 1 - F_nu(chi2)'] = r.p_value.value == 1 - C.rfn('chi2cdf', C.R.lift(n - k), chi2)
+        v = r.aic.value
+        if not v.special:
+            with C.oracle():
+                goals['reported AIC = n log(chi2 / n) + 2 k'] = v == n * C.rfn('log', chi2 / n) + 2 * k
+        if os.environ.get('C17_DEBUG'):
+            print('PATH', kk, [repr(b)[:80] for b in p.pc], 'red', repr(r.red_chisq.value)[:200], 'chi2', repr(chi2)[:200], file=sys.stderr)
+        for nm, g in goals.items():
+            ob = C.prove(f'{tag}:path{kk}:{nm}', g, pc=p.pc, timeout_ms=30000)
+            obs.append(ob_dict(ob))
+            if ob.status == 'violated':
+                cands.append(('C17:stats', {**case, 'k': k}, nm))
+    ob = C.prove(f'{tag}:some fit returns statistics', C.B.const(nok >= 1))
+    obs.append(ob_dict(ob))
     return {'obligations': obs, 'candidates': cands, 'paths': len(paths)}
 
 
@@ -429,6 +551,9 @@ def job_loop(j, seed):
     wins = [[C.sym_var(f'w{i}lo'), C.sym_var(f'w{i}hi')] for i in range(2)]
     windows = sc.array(dims=['x', 'range'], values=wins)
     rec = []
+    if not hasattr(fp, '_fit_peak') or not hasattr(fp, '_fit_peak_single_model'):
+        obs.append({'name': 'loop:per-peak and per-model helpers can be replaced by recorders', 'status': 'inconclusive', 'detail': 'helpers _fit_peak / _fit_peak_single_model not found (renamed): dispatch order not checked', 't': 0})
+        return {'obligations': obs, 'candidates': cands, 'paths': 0}
     real = fp._fit_peak
 
     def fake(data, window, backgrounds, peaks, fpar, freq):
@@ -568,6 +693,7 @@ def run(chk):
     ms = list(range(0, 9)) if chk.tier == 'quick' else list(range(0, 13))
     run_jobs(chk, job_length, [(m, 'gaussian', 'linear') for m in ms] + [(m, 'pseudo_voigt', 'quadratic') for m in ms[::2]])
     run_jobs(chk, job_stats, [(3, 2), (4, 2), (2, 2), (4, 5)])
+    run_jobs(chk, job_stats_public, [(6, 'gaussian', 'linear'), (7, 'lorentzian', 'quadratic')])
     run_jobs(chk, job_bkgstats, [(('gaussian',), ('linear', 'quadratic')), (('gaussian', 'lorentzian'), ('linear', 'quadratic'))] + ([] if chk.tier == 'quick' else [(('pseudo_voigt', 'gaussian', 'lorentzian'), ('quadratic', 'linear'))]))
     run_jobs(chk, job_assess, [(4, 'gaussian'), (5, 'lorentzian')] if chk.tier == 'quick' else [(4, 'gaussian'), (5, 'gaussian'), (5, 'lorentzian'), (5, 'pseudo_voigt')])
     run_jobs(chk, job_windows, [1, 2, 3])
